@@ -45,6 +45,27 @@ def panic_with_words_left(req, left, build):
 
 def extra(binary, build, tier, rng):
     """every Unicode scalar value is reachable and equally weighted: exact preimage counting of boundary scalars by interval search"""
+
+    # consecutive draws: samples of different word widths taken one after the other from a block generator must each be FRESH keystream (a
+    # 64-bit sample after an odd number of 32-bit ones straddles the word grid of the buffer).  `Random::next::<T>()` ops inside ChaCha histories,
+    # judged by the keystream attribution shared with C03.
+    if build == "dev" or tier != "quick":
+        from .ks_oracle import run_oracle
+        from . import gen_chacha as GC
+        plain = {"n32": "u32", "ni32": "u32", "n64": "u64", "ni64": "u64", "nsz": "u64"}
+        hreqs = []
+        for _ in range(40 if tier == "quick" else 1500):
+            kk, c, st, N = GC.key(rng), GC.counter(rng), GC.stream(rng), GC.rounds(rng)
+            ops = [rng.choice(["n32", "n64", "ni32", "ni64", "nsz", "n32", "n64", "fill:%d" % rng.choice([1, 2, 3, 5, 6, 7, 250])]) for _ in range(3 + rng.below(70))]
+            hreqs.append("chacha n=%d key=%s ctr=%d str=%d ops=%s" % (N, ",".join(map(str, kk)), c, st, ",".join(ops)))
+        rc, himpls, err = C.run_lines(binary, ["run"], hreqs)
+        preqs = [q.split("ops=")[0] + "ops=" + ",".join(plain.get(o, o) for o in q.split("ops=")[1].split(",")) for q in hreqs]
+        for item in run_oracle(binary, preqs, himpls):
+            if item.get("kind") == "oracle":
+                k = preqs.index(item["request"])
+                item["request"] = hreqs[k]
+                item["oracle"] = "Random::next::<T>() samples drawn one after the other from ChaCha: " + item["oracle"]
+            yield item
     from .preimage_oracle import Prober, count_values
     from .oracles import parse_ok
     prof = "release" if build == "release" else "debug"
